@@ -11,6 +11,7 @@ import (
 func init() {
 	Register(&Prop{
 		ID: "C11", Bubble: true, Run: runC11, QuickRuns: 1500,
+		ExpectedProbes: []string{"release_with_two_or_more_waiting", "release_checked", "late_caller_barged_in", "release_with_concurrent_arrival"},
 		Rule: "one run = one way of constructing a queue limiter (FromConfig with FIFO / LIFO / empty ordering, WithDefaults, the deprecated Lifo/Fifo constructors with and without defaults, FixedPool and Pool with FIFO/LIFO), limit 1..2, 2..6 waiters whose arrival order is fixed by running each arrival to a stable point, then a seeded sequence of releases, backlog timeouts (distinct arrival instants on the virtual clock) and cancellations; " +
 			"oracle: after each release the caller that returns granted is the oldest (FIFO) / newest (LIFO) among those still waiting in a reference list; " +
 			"non-trivial = at least one release happened with two or more callers waiting; distinct = distinct (constructor, arrival pattern, action sequence, grants) hashes",
@@ -63,28 +64,40 @@ func runC11(r *Run) {
 		c.Evict = t.Intn(2, "evict") == 1
 	}
 	nW := 2 + t.Intn(5, "waiters")
+	// arrival spacing: 1 ms (all waiters expire together) or 400 ms (an early waiter may time out while later ones wait on)
+	gap := []time.Duration{ms, ms, 400 * ms}[t.Intn(3, "arrival-gap")]
+	if (c.Kind == "pool" || c.Kind == "fixedpool") && t.Chance(30, "pool-timeout-0") {
+		c.Timeout = 0 // documented: the queue limiter's default backlog timeout of one second applies
+	}
 	nAct := 1 + t.Intn(6, "actions")
 	type action struct {
-		kind int // 0 release, 1 sleep, 2 cancel
+		kind int // 0 release, 1 sleep, 2 cancel, 3 release while a new caller arrives (may barge in through the fast path)
 		d    time.Duration
 		w    int
 		o    int
 	}
 	var acts []action
+	nBarge := 0
 	for i := 0; i < nAct; i++ {
-		k := t.Pick([]int{6, 3, 2}, "act")
+		k := t.Pick([]int{6, 3, 2, 2}, "act")
 		a := action{kind: k}
 		switch k {
-		case 0:
+		case 0, 3:
 			a.o = t.Intn(3, "outcome")
+			if k == 3 {
+				nBarge++
+			}
 		case 1:
 			a.d = time.Duration(1+t.Intn(10, "sleep-half-ms")) * (ms / 2) // the orchestrator runs at quarter-ms offsets: never on an expiry instant
+			if t.Chance(25, "long-sleep") {
+				a.d = []time.Duration{300 * ms, 600 * ms}[t.Intn(2, "long")]
+			}
 		case 2:
 			a.w = t.Intn(nW, "cancel-who")
 		}
 		acts = append(acts, a)
 	}
-	r.Mixf("C11 %s waiters=%d actions=%v", c, nW, acts)
+	r.Mixf("C11 %s waiters=%d gap=%v actions=%v", c, nW, gap, acts)
 	st, err := BuildStack(c)
 	if err != nil {
 		r.Fail("harness", "build", "%v", err)
@@ -112,8 +125,11 @@ func runC11(r *Run) {
 		retT      int64
 		l         core.Listener
 		cancelled bool
+		barger    bool
+		started   bool
+		goFlag    bool
 	}
-	ws := make([]*waiter, nW)
+	ws := make([]*waiter, nW+nBarge)
 	noMidOp := func() bool {
 		for _, tk := range s.tasks {
 			if tk.MidOp() {
@@ -127,29 +143,48 @@ func runC11(r *Run) {
 		w := &waiter{}
 		ws[i] = w
 		w.tk = s.Go("waiter", func(tk *Task) {
-			// arrival order: waiter i arrives 1 ms after waiter i-1 is asleep in the backlog
+			// arrival order: waiter i arrives one gap after waiter i-1 is asleep in the backlog
 			if i > 0 {
 				if !tk.WaitFor("prev-asleep", func() bool { return ws[i-1].tk.BlockedInOp("acquire") || ws[i-1].returned }) {
 					return
 				}
-				tk.Sleep(ms)
+				tk.Sleep(gap)
 			}
 			tk.Begin("acquire", i)
+			w.started = true
 			w.arrived = s.Now()
 			l, ok := st.Lim.Acquire(tk.Ctx)
 			w.l, w.granted, w.returned, w.retT = l, ok, true, s.Now()
 			tk.End(ok)
 		})
 	}
+	// callers that arrive exactly while a release is in progress
+	for b := 0; b < nBarge; b++ {
+		i := nW + b
+		w := &waiter{barger: true}
+		ws[i] = w
+		w.tk = s.Go("late-caller", func(tk *Task) {
+			if !tk.WaitFor("release-begins", func() bool { return w.goFlag }) {
+				return
+			}
+			tk.Begin("acquire", i)
+			w.started = true
+			w.arrived = s.Now()
+			l, ok := st.Lim.Acquire(tk.Ctx)
+			w.l, w.granted, w.returned, w.retT = l, ok, true, s.Now()
+			tk.End(ok)
+		})
+		w.tk.daemon = true
+	}
 	effTimeout := c.Timeout
 	if effTimeout == 0 {
 		effTimeout = time.Second
 	}
-	// reference backlog
+	// reference backlog: still blocked, not cancelled (when eviction is on), not expired; in arrival order
 	waiting := func(now int64) []int {
 		var idx []int
 		for i, w := range ws {
-			if !w.tk.BlockedInOp("acquire") {
+			if !w.started || !w.tk.BlockedInOp("acquire") {
 				continue
 			}
 			if w.cancelled && c.Evict {
@@ -160,14 +195,21 @@ func runC11(r *Run) {
 			}
 			idx = append(idx, i)
 		}
+		// arrival order (late callers arrive after the scripted waiters, in action order)
+		for a := 1; a < len(idx); a++ {
+			for b := a; b > 0 && (ws[idx[b]].arrived < ws[idx[b-1]].arrived || (ws[idx[b]].arrived == ws[idx[b-1]].arrived && idx[b] < idx[b-1])); b-- {
+				idx[b], idx[b-1] = idx[b-1], idx[b]
+			}
+		}
 		return idx
 	}
 	releases := 0
 	multi := 0
+	nextBarger := nW
 	orch := s.Go("orchestrator", func(tk *Task) {
-		// wait until every waiter is asleep
+		// wait until every scripted waiter is asleep
 		if !tk.WaitFor("all-arrived", func() bool {
-			for _, w := range ws {
+			for _, w := range ws[:nW] {
 				if !w.tk.BlockedInOp("acquire") && !w.returned {
 					return false
 				}
@@ -191,7 +233,7 @@ func runC11(r *Run) {
 					r.Fault("F-cancel")
 					w.tk.Cancel()
 				}
-			case 0:
+			case 0, 3:
 				if len(held) == 0 {
 					continue
 				}
@@ -203,31 +245,55 @@ func runC11(r *Run) {
 				}
 				l := held[0]
 				held = held[1:]
+				var bg2 *waiter
+				bi := -1
+				if a.kind == 3 && nextBarger < len(ws) {
+					bi = nextBarger
+					bg2 = ws[bi]
+					nextBarger++
+					bg2.goFlag = true // the late caller becomes runnable together with the release
+					r.Probe("release_with_concurrent_arrival")
+				}
 				tk.Begin("release", outcomeNames[a.o])
 				Complete(l, a.o)
 				tk.End(nil)
-				if !tk.WaitFor("release-settled", noMidOp) {
+				if !tk.WaitFor("release-settled", func() bool {
+					return noMidOp() && (bg2 == nil || bg2.returned || bg2.tk.BlockedInOp("acquire"))
+				}) {
 					return
 				}
 				releases++
 				var newly []int
 				for i, w := range ws {
-					if w.returned && w.granted && !before[i] {
+					if i != bi && w.returned && w.granted && !before[i] {
 						newly = append(newly, i)
 					}
 				}
-				r.Mixf("release at %s: waiting=%v granted=%v", fmtDur(now), wl, newly)
+				r.Mixf("release at %s: waiting=%v granted=%v late-caller=%v", fmtDur(now), wl, newly, bi)
 				if len(wl) >= 2 {
 					multi++
+				}
+				if bg2 != nil && bg2.returned && bg2.granted {
+					// the new arrival took the freed token through the fast path: nobody else may have been served
+					r.Probe("late_caller_barged_in")
+					if len(newly) != 0 {
+						s.Fail("over-admission", c.Key(), "one token was released at %s; the late caller got it, yet waiter(s) %v were granted too", fmtDur(now), newly)
+						return
+					}
+					held = append(held, bg2.l)
+					continue
 				}
 				if len(wl) == 0 {
 					if len(newly) != 0 {
 						s.Fail("grant-to-nonwaiting", c.Key(), "release at %s granted caller(s) %v although nobody was waiting in the reference backlog", fmtDur(now), newly)
+						return
 					}
 					// the token is simply free again; take it back so later releases have something to release
-					l2, ok := st.Lim.Acquire(bg)
-					if ok {
-						held = append(held, l2)
+					if bg2 == nil || !bg2.tk.BlockedInOp("acquire") {
+						l2, ok := st.Lim.Acquire(bg)
+						if ok {
+							held = append(held, l2)
+						}
 					}
 					continue
 				}
